@@ -123,7 +123,9 @@ func (pipeline) Execute(scAny any, keepLog bool) *core.Outcome {
 		if c.Op.PES != nil {
 			spec = *c.Op.PES
 		}
-		wantPES := spec.ToAstits()
+		wspec := spec
+		wspec.NilOpt = false // what comes back is the empty optional header
+		wantPES := wspec.ToAstits()
 		if oh := wantPES.OptionalHeader; oh != nil && oh.HasPrivateData && len(oh.PrivateData) < 16 {
 			// PES_private_data is a 16-byte field: shorter caller data travel zero-padded
 			oh.PrivateData = append(append([]byte{}, oh.PrivateData...), make([]byte, 16-len(oh.PrivateData))...)
